@@ -8,7 +8,7 @@
      C04_complete : forall bs, ref_strict bs = true -> exists r, dns_parse bs 0 = Ok r
    Both are decided on every run by the oracle (FAIL ref-mismatch / ref-accepts) on the real
    library; the theorems below are the parts proved for ALL inputs so far. *)
-From CAres.Wire Require Import Cursor Name Record Parse Escape Escape_proofs RefDecode RefDecode_proofs Name_ref.
+From CAres.Wire Require Import Cursor Name Record Parse Escape Escape_proofs RefDecode RefDecode_proofs Name_ref Parse_ref.
 From CAres.Gen Require Import Consts.
 Local Open Scope Z_scope.
 
@@ -25,6 +25,19 @@ Theorem C04_name_agreement : forall fuel c,
   end.
 Proof. exact name_parse_ref. Qed.
 Print Assumptions C04_name_agreement.
+
+(* C04_sound restricted to HEADER AND QUESTION, for all inputs (both tree variants): whenever the
+   parser accepts a message and the reference decoder can follow it, the id, the flag bits, the
+   opcode and the question (decompressed name, type, class) the parser reports are exactly what
+   the reference decoder extracts.
+   _partial: RR sections and the RCODE (assembled from OPT) are not covered by this theorem *)
+Theorem C04_sound_header_question_partial : forall variant bs r rf,
+  bytes_ok bs -> Z.of_nat (length bs) < 2 ^ 64 ->
+  dns_parse_v variant bs 0 = Ok r -> ref_decode bs = Some rf ->
+  d_id r = d_id (rf_rec rf) /\ d_flags r = d_flags (rf_rec rf) /\ d_opcode r = d_opcode (rf_rec rf) /\
+  d_qd r = d_qd (rf_rec rf).
+Proof. exact sound_header_question. Qed.
+Print Assumptions C04_sound_header_question_partial.
 
 (* presentation-format names round-trip through escaping without changing the label octets:
    for all label lists (non-empty labels of octets), whatever octets they contain *)
